@@ -15,7 +15,8 @@ def _registry_run(ctx, vdr, d, inp, tag):
     tp = os.path.join(d, "regtrace-%s.ndjson" % tag)
     env = vlib.goenv()
     env["GORACE"] = "halt_on_error=0 exitcode=0"
-    p = vlib.run([vdr, "-mode", "registry", "-in", inp, "-out", tp], env=env, timeout=1800, check=False)
+    early = ["utf8-light", "none", "ascii-simple", "utf8-heavy"][ctx["seed"] % 4]
+    p = vlib.run([vdr, "-mode", "registry", "-early", early, "-in", inp, "-out", tp], env=env, timeout=1800, check=False)
     out = p.stdout or ""
     if p.returncode != 0:
         if FATAL_RE.search(out) and ("/repo/" in out or "go.pennock.tech/tabular" in out):
